@@ -406,6 +406,25 @@ pub fn run(run: &Run) {
         check_forms(PROFS[*pi], KINDS[*ki], a, b, l)
     });
     run.prop("histories", run.pick(8_000, 300_000), history_strategy, |h, l| check_history(h, l));
+    run.par("fingerprint_collision_histories", true, |tid, _n, l| {
+        if tid != 0 {
+            return;
+        }
+        for (_, a, b) in crate::gens::fingerprint_collisions().iter() {
+            for pi in 0..4usize {
+                for ki in 0..3usize {
+                    for fi in 0..13usize {
+                        let h: Vec<Step> = vec![(pi, ki, fi, a.clone(), a.clone()), (pi, ki, fi, b.clone(), b.clone()), (pi, ki, fi, a.clone(), b.clone()), ((pi + 1) % 4, ki, fi, b.clone(), a.clone())];
+                        l.cases += 1;
+                        if let Err(v) = check_history(&h, l) {
+                            run.violate(v);
+                            return;
+                        }
+                    }
+                }
+            }
+        }
+    });
     // children run one after the other: each one uses all cores itself (16 racing threads, then 12 spinning threads)
     let children = run.pick(24u64, 600u64);
     run.par("first_use_race", false, |tid, _n, l| {
